@@ -61,6 +61,18 @@ CLAIMED = {
         text='For every table row the two marks k, k+1 are solver integers ranging over and beyond the tabulated range, so each obligation covers every adjacent pair of the row at once; '
              'order over arbitrary pairs follows by transitivity. The float abstraction (monotone rounding, monotone pow/square) is sound for order statements; candidate counterexamples are replayed on the real doubles.',
         note='Assumes IEEE rounding is monotone and libm pow is monotone in its base; values through pow are not modelled. Table lookups are exact (run-length If-trees). One known finding (Bulgarian U16 F 600 table typo).'),
+    'C11': dict(
+        category='model_checking', design_ref='DESIGN.md section 3 C11, 2.3',
+        technique='bit-precise symbolic execution (IEEE-754 terms over a bit-vector mark) of the real table-scoring functions; cvc5 QF_BVFP decides code(k) != exact-rational oracle(k) per row and chunk of marks; finite table clauses exhaustively',
+        text='The mark is a bit-vector, the doubles are exact IEEE terms, the oracle is exact integer arithmetic from the frozen reference tables: unsat means that for every mark of the chunk the '
+             'library returns exactly the published/linear value irrespective of binary representation. Input forms number, int and m:ss.xx (the double parse_hms builds). Table equality, order and key reachability are finite and exhaustive.',
+        note='Trusted: cvc5 1.0.3 QF_BVFP (z3 as second try), float(text) correctly rounded, reference/tables.json as stand-in for the published tables. Quick tier samples the Tyrving (row, chunk) jobs; thorough runs all. One known finding (Bulgarian U16 F 600 typo).'),
+    'C01': dict(
+        category='model_checking', design_ref='DESIGN.md section 3 C01, 2.3',
+        technique='bit-precise symbolic execution of the real athlon_score.score (IEEE-754 terms, pow as an uninterpreted function on both sides); cvc5 QF_UFBVFP decides code(k) != formula on the exactly rounded mark; age -> factor selection and unknown pairs by z3 LIA / string paths',
+        text='Per (row, age factor) one query over every mark k up to past the zero-point: the number fed to the formula equals floor/ceil of k*F/10^4 in exact arithmetic and the formula has the reference structure and coefficients; '
+             'factor selection is checked for every age 1..130 with a symbolic age; unknown gender/event pairs give None.',
+        note='pow is uninterpreted: whether libm pow lands on the right side of an integer is outside the claim (C09 is not applicable for the same reason). Quick tier samples the (row, factor) queries; thorough runs all 52 rows x every factor column.'),
 }
 
 NOT_APPLICABLE = {
